@@ -349,7 +349,10 @@ pub fn load(config: &Config) -> Result<Context> {
         match try_load_currency(&config.currency, &mut ctx, &search_path) {
             Ok(()) => (),
             Err(err) => {
-                println!("{:?}", err.wrap_err("Failed to load currency data"));
+                // Not on stdout: in the sandboxed child (`rink --service`)
+                // that is the pipe to the parent, which would read the
+                // message as a frame and wait forever.
+                eprintln!("{:?}", err.wrap_err("Failed to load currency data"));
             }
         }
     }
@@ -452,8 +455,9 @@ fn cached(
     };
 
     if let Ok(file) = File::open(&path) {
-        // Indicate error even though we're returning success.
-        println!(
+        // Indicate error even though we're returning success. (On stderr,
+        // see `load`.)
+        eprintln!(
             "{:?}",
             Report::wrap_err(
                 err,
